@@ -34,6 +34,14 @@ class Monitor(object):
         self.dead = False
         self.first_visit = {}
         self.last_t = None
+        from .c17 import Monitor as M17
+        self.shadow = M17(cfg)          # recomputes the tracker state from the configuration (blockage order shadow)
+
+    def on_block(self, node, dest, ind):
+        self.shadow.on_block(node, dest, ind)
+
+    def on_release(self, node, dest, ind, blocked):
+        self.shadow.on_release(node, dest, ind, blocked)
 
     def violate(self, clause, detail):
         self.hub.violate("C18", clause, detail)
@@ -50,6 +58,10 @@ class Monitor(object):
         now = Q.current_time
         self.last_t = now
         st = getattr(self.hub, "last_hash", None)
+        truths = self.shadow.truths(Q)
+        if st not in truths:
+            # 'each visited tracker state': the keys of times_to_deadlock are states of the system, not of a drifted counter
+            self.violate("visited_state_ne_configuration", {"tracked": str(st), "configuration": str(truths[0]), "clock": now})
         if st not in self.first_visit:
             self.first_visit[st] = now
         S = deadlocked_set(Q)
@@ -182,6 +194,14 @@ def focused(tier):
     mk("scenario: overtime server in the cycle (schedule [1,1])", [node(c={"sched": {"numbers": [1, 1], "ends": [5.0, 1000.0], "preempt": False}}, cap=2), node(c=1, cap=0)],
        {"Out": klass([{"script": [1.0, BIGT]}, None], [[9.0, 7.0], [1.0]], route=matrix([[0.0, 0.0], [0.0, 0.0]])),
         "Loop": klass([{"script": [3.0, 7.5, BIGT]}, {"script": [2.0, BIGT]}], [[1.0, 0.5], [5.0, 4.0]], route=matrix([[0.0, 1.0], [1.0, 0.0]]))})
+    out[-1]["max_events"] = 40
+    out[-1]["D"] = 3
+    # (beyond the statement too) two customers blocked towards a node whose overtime server is dismissed; one of them
+    # stays blocked and later belongs to a genuine knot
+    mk("scenario: overtime server dismissed while two are blocked towards its node", [node(c=2, cap=0),
+        node(c={"sched": {"numbers": [1, 1], "ends": [5.0, 1000.0], "preempt": False}}, cap=1)],
+       {"X": klass([None, {"script": [0.5, BIGT]}], [[1.0], [10.0, 8.0]], route=matrix([[0.0, 0.0], [0.0, 0.0]])),
+        "B": klass([{"script": [1.0, 0.2, 9.8, BIGT]}, None], [[1.0, 0.5], [3.0, 2.0]], route=matrix([[0.0, 1.0], [1.0, 0.0]]))})
     out[-1]["max_events"] = 40
     out[-1]["D"] = 3
     mk("multi-server partial blockage", [node(c=2, cap=0), node(c=1, cap=0), node(c=1)],
